@@ -730,6 +730,7 @@ type fileOpts struct {
 	sidx    bool // a sidx box between styp and the first moof (one reference covering the fragments)
 	optTrun bool // the clear fragments were written with OptimizeTrun (sample defaults in tfhd)
 	baseVar int // 0: default-base-is-moof + trun data offset; 1: tfhd base_data_offset = moof start; 2: tfhd base_data_offset = mdat payload, trun without data offset
+	sig     bool // sample size / duration / flags signalled per fragment in trun, in tfhd defaults or ONLY in the trex defaults (+ first-sample-flags)
 }
 
 // buildClearFile: init + one segment with nfrags fragments. Returns the bytes.
@@ -737,6 +738,23 @@ func (e *env) buildClearFile(codec byte, scheme string, fo fileOpts, r *hx.Rng) 
 	initF, err := mp4.DecodeFile(bytes.NewReader(e.initFor(codec)))
 	must(err)
 	trackID := initF.Init.Moov.Trak.Tkhd.TrackID
+	// a trex with non-trivial defaults, as an external packager writes it; the template sample is the one every
+	// fragment that signals its sizes through trex.default_sample_size is made of
+	var template []byte
+	switch {
+	case codec == 'u':
+		template = genAudioSample(r, 0)
+	case scheme == "cbcs":
+		template = frame(genVideoSampleCbcs(e, r, codec, 0))
+	default:
+		template = frame(genVideoSampleCenc(r, codec, 0))
+	}
+	if fo.sig {
+		trex := initF.Init.Moov.Mvex.Trex
+		trex.DefaultSampleSize = uint32(len(template))
+		trex.DefaultSampleDuration = 1024
+		trex.DefaultSampleFlags = 0x01010000
+	}
 	var buf bytes.Buffer
 	must(initF.Init.Encode(&buf))
 	if fo.styp && !fo.sidx {
@@ -768,10 +786,33 @@ func (e *env) buildClearFile(codec byte, scheme string, fo fileOpts, r *hx.Rng) 
 				samples = append(samples, frame(genVideoSampleCenc(r, codec, 0)))
 			}
 		}
+		sg := sigOpts{}
+		if fo.sig {
+			sg = sigOpts{size: r.Intn(3), dur: r.Intn(3), flags: r.Intn(3)}
+			switch sg.size {
+			case 1: // constant size, in tfhd
+				for j := range samples {
+					if codec == 'u' {
+						samples[j] = r.Bytes(len(samples[0]), nil)
+					} else {
+						samples[j] = append([]byte{}, samples[0]...)
+					}
+				}
+			case 2: // constant size, only in trex
+				for j := range samples {
+					if codec == 'u' {
+						samples[j] = r.Bytes(len(template), nil)
+					} else {
+						samples[j] = append([]byte{}, template...)
+					}
+				}
+			}
+		}
 		all = append(all, samples)
 		o := fragOpts{extraMoof: r.Pick(0, 0, 1, 2), extraTraf: r.Pick(0, 1, 2), moofBefore: r.Bool()}
 		frag := buildFragment(trackID, samples, o, r)
 		frag.Moof.Mfhd.SequenceNumber = uint32(k + 1)
+		applySignalling(frag, sg)
 		pos := uint64(buf.Len())
 		tfhd := frag.Moof.Traf.Tfhd
 		switch fo.baseVar {
@@ -803,9 +844,15 @@ func (e *env) buildClearFile(codec byte, scheme string, fo fileOpts, r *hx.Rng) 
 var lastErr string
 
 func fileRoundTrip(clearRaw []byte, scheme string, key, iv []byte, npssh int) (dec []byte, stage string) {
+	dec, stage, _ = fileRoundTripEnc(clearRaw, scheme, key, iv, npssh)
+	return dec, stage
+}
+
+// fileRoundTripEnc also returns the intermediate encrypted file
+func fileRoundTripEnc(clearRaw []byte, scheme string, key, iv []byte, npssh int) (dec []byte, stage string, enc []byte) {
 	inF, err := mp4.DecodeFile(bytes.NewReader(clearRaw))
 	if err != nil {
-		return nil, "decode-clear"
+		return nil, "decode-clear", nil
 	}
 	kid, _ := mp4.NewUUIDFromString(kidHex)
 	var psshs []*mp4.PsshBox
@@ -816,41 +863,41 @@ func fileRoundTrip(clearRaw []byte, scheme string, key, iv []byte, npssh int) (d
 	}
 	var ipd *mp4.InitProtectData
 	if p := hx.Try(func() { ipd, err = mp4.InitProtect(inF.Init, key, iv, scheme, kid, psshs) }); p != "" || err != nil {
-		return nil, "init-protect-" + classOf(p, err)
+		return nil, "init-protect-" + classOf(p, err), nil
 	}
 	for _, s := range inF.Segments {
 		for _, f := range s.Fragments {
 			if p := hx.Try(func() { err = mp4.EncryptFragment(f, key, iv, ipd) }); p != "" || err != nil {
-				return nil, "encrypt-" + classOf(p, err)
+				return nil, "encrypt-" + classOf(p, err), nil
 			}
 		}
 	}
 	var eb bytes.Buffer
 	if p := hx.Try(func() { err = inF.Encode(&eb) }); p != "" || err != nil {
-		return nil, "encode-encrypted-" + classOf(p, err)
+		return nil, "encode-encrypted-" + classOf(p, err), nil
 	}
 	encF, err := mp4.DecodeFile(bytes.NewReader(eb.Bytes()))
 	if err != nil {
-		return nil, "decode-encrypted"
+		return nil, "decode-encrypted", eb.Bytes()
 	}
 	var di mp4.DecryptInfo
 	if p := hx.Try(func() { di, err = mp4.DecryptInit(encF.Init) }); p != "" || err != nil {
-		return nil, "decrypt-init-" + classOf(p, err)
+		return nil, "decrypt-init-" + classOf(p, err), eb.Bytes()
 	}
 	var db bytes.Buffer
 	if p := hx.Try(func() { err = encF.Init.Encode(&db) }); p != "" || err != nil {
-		return nil, "encode-decrypted-init-" + classOf(p, err)
+		return nil, "encode-decrypted-init-" + classOf(p, err), eb.Bytes()
 	}
 	for _, sg := range encF.Segments {
 		if p := hx.Try(func() { err = mp4.DecryptSegment(sg, di, key) }); p != "" || err != nil {
 			lastErr = fmt.Sprint(p, err)
-			return nil, "decrypt-segment-" + classOf(p, err)
+			return nil, "decrypt-segment-" + classOf(p, err), eb.Bytes()
 		}
 		if p := hx.Try(func() { err = sg.Encode(&db) }); p != "" || err != nil {
-			return nil, "encode-decrypted-" + classOf(p, err)
+			return nil, "encode-decrypted-" + classOf(p, err), eb.Bytes()
 		}
 	}
-	return db.Bytes(), "ok"
+	return db.Bytes(), "ok", eb.Bytes()
 }
 
 func searchFiles(e *env, r *hx.Rng, n int) {
@@ -864,6 +911,7 @@ func searchFiles(e *env, r *hx.Rng, n int) {
 			fo.sidx = true
 		}
 		fo.optTrun = i%3 == 1 && fo.baseVar == 0
+		fo.sig = i%2 == 0
 		clearRaw, samples := e.buildClearFile(codec, scheme, fo, r)
 		iv := genIV(r, r.Pick(8, 16))
 		key := r.Bytes(16, nil)
@@ -875,7 +923,7 @@ func searchFiles(e *env, r *hx.Rng, n int) {
 			must(fmt.Errorf("generated clear file does not decode: %v", err))
 		}
 		for k, fr := range cf.Segments[0].Fragments {
-			fss, err := fr.GetFullSamples(nil)
+			fss, err := fr.GetFullSamples(cf.Init.Moov.Mvex.Trex)
 			if err != nil || len(fss) != len(samples[k]) {
 				must(fmt.Errorf("generated clear file: fragment %d samples unreadable (%v)", k, err))
 			}
@@ -885,7 +933,12 @@ func searchFiles(e *env, r *hx.Rng, n int) {
 				}
 			}
 		}
-		decRaw, stage := fileRoundTrip(clearRaw, scheme, key, iv, fo.npssh)
+		decRaw, stage, encRaw := fileRoundTripEnc(clearRaw, scheme, key, iv, fo.npssh)
+		if encRaw != nil && fo.baseVar == 0 {
+			if d := e.checkEncrypted(encRaw, samples, codec, scheme, key); d != "" {
+				fail("mp4.EncryptFragment", "file-not-encrypted-as-specified", wit, d)
+			}
+		}
 		cls := "file"
 		if fo.baseVar != 0 {
 			cls = "file-tfhd-base-data-offset"
@@ -909,7 +962,7 @@ func searchFiles(e *env, r *hx.Rng, n int) {
 				desc = "decrypted file does not decode"
 			} else if len(df.Segments) == 1 && len(df.Segments[0].Fragments) == fo.nfrags {
 				for k, fr := range df.Segments[0].Fragments {
-					fss, err := fr.GetFullSamples(nil)
+					fss, err := fr.GetFullSamples(df.Init.Moov.Mvex.Trex)
 					if err != nil || len(fss) != len(samples[k]) {
 						desc = fmt.Sprintf("fragment %d: samples unreadable after decrypt", k)
 						break
